@@ -950,6 +950,22 @@ def _check_ppo_get_action(rec, agent, obs_np, ret, training):
             rec.violate("agent_boundary", "get_action_entropy_is_not_the_actors", site, got=np.asarray(ent).shape)
     elif not np.isfinite(np.asarray(ent, dtype=np.float64)).all():
         rec.violate("agent_boundary", "non_finite_entropy", site)
+    if inner["kind"] == "box" and inner["squash"] and training and isinstance(action, np.ndarray):
+        # the training loops hand the returned action to scale_action() for the environment and then STORE the action for
+        # re-evaluation: the conversion must not write into the array it is given
+        rec.hit("scale_action_purity_checks")
+        before = action.copy()
+        try:
+            agent.actor.scale_action(action)
+        except Exception as e:
+            from vf.core import CaseTimeout
+
+            if isinstance(e, CaseTimeout):
+                raise
+            rec.hit("scale_action_raised(info)")
+        if not np.array_equal(action, before):
+            rec.violate("reeval_logprob", "scale_action_overwrote_the_stored_action", "StochasticActor.scale_action", stored=before[0], now=action[0])
+            action[...] = before
 
 
 def _run_ppo(case, rec):
